@@ -189,6 +189,16 @@ func runHistory(d histDesc) *history {
 		st = cacheStore{cache.New[hkey, val](cache.Opts{Size: d.Size, CleanerInterval: time.Duration(d.GCMicros) * time.Microsecond})}
 	}
 	defer st.close()
+	prefilled := d.Workload == "cache" && d.Flavour == "evict"
+	if prefilled {
+		// fill the store to the brim with long-lived filler keys over all shards, so that
+		// the history's stores into its one hot shard run against a full store
+		far := now() + int64(time.Hour)
+		for i := 0; i < 2*h.Bound; i++ {
+			id := int32(1<<20 + i)
+			st.put(hkey{ID: id, S: uint64(i)}, val{ID: int64(id), Key: id, Exp: far})
+		}
+	}
 
 	per := make([][]opRec, d.Goroutines)
 	start := make(chan struct{})
@@ -257,8 +267,8 @@ func runHistory(d histDesc) *history {
 	go func() { wg.Wait(); close(done) }()
 	select {
 	case <-done:
-	case <-time.After(90 * time.Second):
-		rep.Inconclusive("watchdog: history %s #%d did not finish within 90 s", d.Workload, d.N)
+	case <-time.After(600 * time.Second):
+		rep.Inconclusive("watchdog: history %s #%d did not finish within 600 s", d.Workload, d.N)
 		rep.Finish()
 	}
 	stop.Store(true)
@@ -287,7 +297,7 @@ func runHistory(d histDesc) *history {
 		h.LenOver = o
 	}
 	// every entry of a cache history expires within a few ms: watch the sweeper empty the store
-	if d.Workload == "cache" && d.N%4 == 0 {
+	if d.Workload == "cache" && d.N%4 == 0 && !prefilled {
 		dl := time.Now().Add(150 * time.Millisecond)
 		for time.Now().Before(dl) {
 			if st.length() == 0 {
@@ -366,6 +376,13 @@ func worker(d histDesc, g int, keys []hkey, st store, start chan struct{}) []opR
 			st.put(k, v)
 			o.Ret = now()
 			ops = append(ops, o)
+			if d.Flavour == "evict" { // the storing goroutine looks at Len() itself
+				l := opRec{G: g, Kind: opLen, K: "len", Key: -1}
+				l.Call = now()
+				l.N = st.length()
+				l.Ret = now()
+				ops = append(ops, l)
+			}
 		case x < pGet+pStore+pFlush:
 			o := opRec{G: g, Kind: opFlush, K: "flush", Key: -1}
 			if isLRU && r.Intn(3) > 0 {
